@@ -120,7 +120,10 @@ Patterns == <<
   << Def("f", <<Ref("m.attach", "1")>>, << Loc("entry", "block", <<>>), Loc("x", "inst", <<Ref("m.attach", "2")>>) >>),
      Md("2", <<Ref("m.tuple", "1")>>), Md("1", <<Ref("g.mdvalue", "f")>>) >>,
   \* 12: reference to an attribute group that has no definition (documented exception: materialised)
-  << Decl("f", <<Ref("a.func", "7")>>), Attr("0") >>
+  << Decl("f", <<Ref("a.func", "7")>>), Attr("0") >>,
+  \* 13: one entity of every index (every phase of the translator has work)
+  << TStruct("a", <<>>), Comdat("c"), Attr("1"), NamedMd("m", <<Ref("m.named", "0")>>), Md("0", <<>>),
+     Global("g", <<Ref("ty.global", "a"), Ref("c.global", "c"), Ref("m.attach", "0")>>), Decl("f", <<Ref("a.func", "1")>>) >>
 >>
 
 \* Patterns outside LLVM's own grammar that the parser accepts (type aliases); kept apart because
